@@ -181,6 +181,29 @@ func Run(c *vk.Ctx) {
 			}
 		}
 	}
+	// deep recursion: every plain stack of 4 and 5 frames over a1 and b (the same adjacency, or the same
+	// entry, several times in one sample: counted once per sample)
+	for d := 4; d <= 5; d++ {
+		for code := 0; code < 1<<d; code++ {
+			var sh enum.Shape
+			for i := 0; i < d; i++ {
+				k := 0
+				if code&(1<<i) != 0 {
+					k = 2
+				}
+				sh = append(sh, []int{k})
+			}
+			if c.Mine(idx) {
+				if c.Expired() {
+					c.Cap(fmt.Sprintf("time budget: stopped at profile index %d", idx))
+					return
+				}
+				checkProfile(c, sigma, sh, nil, -1, cfgs)
+				c.Count("family/deep-recursion", 1)
+			}
+			idx++
+		}
+	}
 	if c.Thorough() {
 		for _, sh := range enum.Shapes(sigma, 3) {
 			if depthOf(sh) != 3 {
